@@ -14,7 +14,9 @@ import vcommon as vc
 WRAPS = ["fopen", "fread", "fwrite", "fseek", "ftell", "fflush", "fclose"]
 WORKLOADS = ["h_put", "h_putc", "h_put16", "h_linked", "h_linkedc", "h_update", "h_updatec", "h_read",
              "v_write", "v_update", "v_read", "sd_write", "sd_chunk", "sd_update", "sd_read", "sd_cread",
-             "gr_write", "gr_read", "an_write", "an_read"]
+             "gr_write", "gr_read", "an_write", "an_read",
+             "sd_dims", "sd_inq", "sd_cinq", "h_special", "h_inq", "v_attr", "v_inq", "v_inq1", "gr_more", "gr_inq",
+             "gr_inq1"]
 FN_SCEN = {"plain": ["Hclose", "HIsync", "Hsync", "HTPsync", "HIextend_file", "HP_write 7", "HPseek 10", "HPseekcur"],
            "nocache": ["Hclose", "HIsync", "HP_write 3", "HPseek 0"],
            "cache": ["Hclose", "HIsync", "Hsync", "HTPsync", "HIextend_file", "HP_write 1"],
@@ -23,7 +25,8 @@ FN_SCEN = {"plain": ["Hclose", "HIsync", "Hsync", "HTPsync", "HIextend_file", "H
            "read": ["Hclose", "HP_read 4", "HPseek 2", "HPseekcur"],
            "rdwr": ["HP_write 5", "HP_read 3", "HPseekcur", "HPseek 0", "Hclose", "HIextend_file"],
            "attached": ["Hclose"],
-           "two": ["Hclose", "Hsync"]}
+           "two": ["Hclose", "Hsync"],
+           "twoatt": ["Hclose"]}
 
 RULE = ("20 workload programs (H elements incl. linked blocks, DD-block overflow, cache on/off, update and read of "
         "existing files; Vdata/Vgroup write, update, read; SD write incl. unlimited, chunked, chunked+deflate, RLE, "
@@ -34,7 +37,7 @@ RULE = ("20 workload programs (H elements incl. linked blocks, DD-block overflow
         "transfers (errno ENOSPC), and half of them (thorough: all, gaps 1,2,3,5,8,13,21) with a second independent single "
         "fault at index k+gap. Each run is a child process under ASan/UBSan with a 20 s watchdog; recorded: every "
         "API return value, exit status, final file bytes and a hash of all data read, compared with the fault-free "
-        "run. Function level: 9 prepared file records x up to 8 L1 functions x every fault index x single/sticky. "
+        "run. Function level: 10 prepared file records x up to 8 L1 functions x every fault index x single/sticky. "
         "A case is non-trivial when the injected fault actually hit (nfaults > 0); distinct by (workload, mode, k, "
         "variant)")
 TRUSTED = ["Coq 8.16.1 kernel (vm_compute only on closed finite terms)",
